@@ -14,7 +14,7 @@ import re._constants as sre_c  # type: ignore
 
 REPO = os.environ.get("VERIF_REPO", "/repo")
 VERIF = os.path.dirname(os.path.dirname(os.path.abspath(__file__)))
-GEN_DIR = os.path.join(VERIF, "coq", "Generated")
+GEN_DIR = os.path.join(os.environ.get("VERIF_WORK", VERIF), "coq", "Generated")
 
 
 class TranslatorError(Exception):
